@@ -328,3 +328,36 @@ def unstrip(node: ast.AST | str, fold_to_iterable: bool = True) -> ast.AST:
     out = U().visit(copy.deepcopy(node))
     ast.fix_missing_locations(out)
     return out
+
+
+def path_norm(text: str) -> str:
+    """One spelling for expressions that build a path: `X.joinpath(a, b)` = `X / a / b`, `X / "a/b"` = `X / "a" / "b"`,
+    `X.absolute()` = X (the same file - unlike `.resolve()`, which follows symbolic links and is kept)."""
+    try:
+        node = ast.parse(text, mode="eval").body
+    except SyntaxError:
+        return text
+
+    class T(ast.NodeTransformer):
+        def visit_Call(self, n):
+            self.generic_visit(n)
+            if isinstance(n.func, ast.Attribute) and n.func.attr == "joinpath" and n.args and not n.keywords \
+                    and not any(isinstance(a, ast.Starred) for a in n.args):
+                out = n.func.value
+                for a in n.args:
+                    out = ast.BinOp(left=out, op=ast.Div(), right=a)
+                return self.visit(out)
+            if isinstance(n.func, ast.Attribute) and n.func.attr == "absolute" and not n.args and not n.keywords:
+                return n.func.value
+            return n
+
+        def visit_BinOp(self, n):
+            self.generic_visit(n)
+            if isinstance(n.op, ast.Div) and isinstance(n.right, ast.Constant) and isinstance(n.right.value, str) and "/" in n.right.value.strip("/"):
+                out = n.left
+                for part in [p for p in n.right.value.split("/") if p]:
+                    out = ast.BinOp(left=out, op=ast.Div(), right=ast.Constant(value=part))
+                return out
+            return n
+
+    return ast.unparse(ast.fix_missing_locations(T().visit(node)))
